@@ -45,7 +45,7 @@ func coreC06(tier string) []RunSpec {
 	for k := 0; k < 16; k++ {
 		out = append(out, RunSpec{Profile: "core:racing-reject", Params: map[string]int{"rr": 1, "k": k}})
 	}
-	for sk := 0; sk < 6; sk++ {
+	for sk := 0; sk < 7; sk++ {
 		for k := 0; k < 2; k++ {
 			out = append(out, RunSpec{Profile: "core:semantic-invalid", Params: map[string]int{"sem": 1, "sk": sk, "k": k}})
 		}
@@ -515,7 +515,7 @@ func c06SemanticInvalid(rc *RunCtx, m *MW, snapshot func() string, i int) {
 	W, T := rc.W, rc.T
 	kind := rc.P("sk", -1)
 	if kind < 0 {
-		kind = T.Choose("sem.kind", 6)
+		kind = T.Choose("sem.kind", 7)
 	}
 	ks := W.ActiveKeyset("A")
 	a := NewActor(W, fmt.Sprintf("s%d.sem", i))
@@ -625,6 +625,37 @@ func c06SemanticInvalid(rc *RunCtx, m *MW, snapshot func() string, i int) {
 			}
 			after = func(r *Resp) {
 				sigs, _ := r.Body["signatures"].([]any)
+				m.User.Purse["A"] = append(m.User.Purse["A"], W.Unblind("A", exact, sigs)...)
+			}
+		case 6: // swap whose outputs include a blinded message the mint signed before (a wallet whose
+			// counter fell behind does this); corrected: fresh outputs
+			var signed *HOutput
+			mb := W.Book.Mint("A")
+			for k := len(mb.SigSeq) - 1; k >= 0 && signed == nil; k-- {
+				if o := W.Outputs[mb.SigSeq[k]]; o != nil && o.ID == ks.ID {
+					signed = o
+				}
+			}
+			ins := m.pickProofs("A", 2)
+			f := m.feeFor("A", ins)
+			if signed == nil || ins == nil || SumH(ins) <= f+signed.Amount {
+				ok = false
+				return
+			}
+			rest := W.NewOutputs(Split(SumH(ins)-f-signed.Amount), ks.ID)
+			withOld := append([]*HOutput{{Amount: signed.Amount, ID: signed.ID, B_: signed.B_}}, rest...)
+			exact := W.NewOutputs(Split(SumH(ins)-f), ks.ID)
+			badIns = ins
+			bad = func() *Resp {
+				return a.Post("A", "/v1/swap", map[string]any{"inputs": proofsJ(ins), "outputs": outsJ(withOld)})
+			}
+			good = func() *Resp {
+				return a.Post("A", "/v1/swap", map[string]any{"inputs": proofsJ(ins), "outputs": outsJ(exact)})
+			}
+			after = func(r *Resp) {
+				sigs, _ := r.Body["signatures"].([]any)
+				m.User.remove("A", ins)
+				m.Spent["A"] = append(m.Spent["A"], ins...)
 				m.User.Purse["A"] = append(m.User.Purse["A"], W.Unblind("A", exact, sigs)...)
 			}
 		case 5: // swap with one forged input next to valid ones; corrected: only the valid ones
